@@ -32,17 +32,57 @@ def _check_pairs(pairs, ori, nref, nqry, where, allow_empty=False):
         raise Violation(prob[0], f"{where}: {prob[1]}")
 
 
-def check_unit(case):
+def check_unit(case, aligner=None):
     ref, qry = gen_unit.build_maps(case)
-    aligner = gen_unit.build_aligner(case["params"])
+    if aligner is None:
+        aligner = gen_unit.build_aligner(case["params"])
     peaks = gen_unit.build_peaks(case)
     row = sut(aligner.align, ref, qry, peaks, case["rev"])
     pairs = [(p.reference.siteId, p.query.siteId) for p in row.alignedPairs]
     nseg = sum(1 for s in row.segments if s.positions)
     cl = [f"segments={min(nseg, 4)}", "rev" if case["rev"] else "fwd"]
-    _check_pairs(pairs, "-" if case["rev"] else "+", len(case["ref"]), len(case["query"]),
+    sh = case.get("shift", 0)
+    _check_pairs(pairs, "-" if case["rev"] else "+", len(case["ref"]), sh + len(case["query"]),
                  f"Aligner.align candidate from {len(peaks)} peaks ({nseg} segments)", allow_empty=True)
+    req(all(q > sh for _, q in pairs), "pair-names-label-outside-fragment",
+        f"fragment with label numbers {sh + 1}..{sh + len(case['query'])} paired with query labels {sorted(q for _, q in pairs if q <= sh)}")
     return {"nontrivial": nseg >= 2, "classes": cl}
+
+
+def check_unit_history(case):
+    """one Aligner (scorer, factory, engine, chainer, resolver) used for several calls in a row, as one worker uses it
+    for every reference and strand of a query and later for the fragments of that query (same id and length)"""
+    aligner = gen_unit.build_aligner(case["params"])
+    nt = False
+    cl = set()
+    for c in case["calls"]:
+        info = check_unit(dict(c, params=case["params"]), aligner)
+        nt = nt or info["nontrivial"]
+        cl.update(info["classes"])
+    kinds = [c.get("kind", "base") for c in case["calls"]]
+    return {"nontrivial": nt and "fragment" in kinds, "classes": sorted(cl | {"then-" + k for k in kinds[1:]})}
+
+
+@st.composite
+def unit_history_strategy(draw):
+    base = draw(gen_unit.aligner_case(min_peaks=1, max_peaks=6))
+    params = base.pop("params")
+    calls = [dict(base, kind="base")]
+    for _ in range(draw(st.integers(1, 2))):
+        kind = draw(st.sampled_from(["fragment", "fragment", "strand", "other"]))
+        if kind == "fragment":
+            n = len(base["query"])
+            # a head or a tail of the molecule, as AlignmentResultRow.getUnalignedFragments builds them
+            cut = draw(st.integers(0, n - 1))
+            a, b = (0, cut) if draw(st.booleans()) else (cut, n - 1)
+            c = dict(base, query=base["query"][a:b + 1], shift=a, kind=kind)
+        elif kind == "strand":
+            c = dict(base, rev=not base["rev"], kind=kind)
+        else:
+            c = dict(draw(gen_unit.aligner_case(min_peaks=1, max_peaks=6, force_params={})), kind=kind)
+            c.pop("params", None)
+        calls.append(c)
+    return {"params": params, "calls": calls}
 
 
 def check_run(run, cl):
@@ -137,6 +177,9 @@ def subchecks(tier):
     return [
         Sub("aligner-unit", "hyp", check_unit, strategy=unit_case_strategy, examples=24000 if q else 600000, shrink_budget=600,
             describe="Aligner.align on real label data with ladders of seed peaks", required_classes=("segments=3",)),
+        Sub("aligner-history", "hyp", check_unit_history, strategy=unit_history_strategy, examples=8000 if q else 200000, shrink_budget=600,
+            describe="one Aligner instance reused for a query, its fragments (same id and length), the other strand and other molecules",
+            required_classes=("then-fragment",)),
         Sub("pipeline", "hyp", check_pipeline, strategy=pipeline_strategy, examples=1200 if q else 30000, shrink_budget=150,
             describe="every record of every file + every candidate, in-process", sample_filter=gen_maps.short_case,
             required_classes=("second-pass-record", "joined-record", "multi-segment-candidate")),
